@@ -296,6 +296,41 @@ func checkC15(c *Ctx, r *Report) {
 		}
 	}
 	liveEscapes := checkMetaEscapes(c, r, li)
+	// execution contexts of functions (which kinds of roots reach them)
+	ctxOf := map[string]string{}
+	{
+		rootSets := map[string][]*ssa.Function{}
+		for _, f := range li.Fns {
+			k := fnKey(f)
+			switch {
+			case k == "(*reservoir/cache.cacheJanitor).start$1":
+				rootSets["janitor"] = append(rootSets["janitor"], f)
+			case k == "(*reservoir/proxy.Proxy).ServeHTTP":
+				rootSets["request"] = append(rootSets["request"], f)
+			case k == "reservoir/config.UpdatePartialFromConfig" || k == "(*reservoir/config.ConfigProp).Overwrite" || k == "reservoir/webserver/api.WrapHandler$1":
+				rootSets["config/api"] = append(rootSets["config/api"], f)
+			case strings.HasSuffix(k, ").Destroy") || k == "(*reservoir/cache.cacheJanitor).stop":
+				rootSets["teardown"] = append(rootSets["teardown"], f)
+			}
+		}
+		names := []string{"janitor", "request", "config/api", "teardown"}
+		reachBy := map[string]map[*ssa.Function]bool{}
+		for _, n := range names {
+			reachBy[n], _ = allReach(li, rootSets[n])
+		}
+		for _, f := range li.Fns {
+			var cs []string
+			for _, n := range names {
+				if reachBy[n][f] {
+					cs = append(cs, n)
+				}
+			}
+			if len(cs) == 0 {
+				cs = []string{"start-up/other"}
+			}
+			ctxOf[fnKey(f)] = strings.Join(cs, "+")
+		}
+	}
 	acc := collectAccesses(li.Fns, shared)
 	if liveEscapes == 0 {
 		// Every metadata pointer handed out of package cache is a private copy made under
@@ -326,6 +361,12 @@ func checkC15(c *Ctx, r *Report) {
 		switch {
 		case strings.HasPrefix(rule, "guard:"):
 			guard := LockClass(strings.TrimPrefix(rule, "guard:"))
+			guardExists := guard == "S"
+			for i := range li.Ops {
+				if li.Ops[i].class == guard {
+					guardExists = true
+				}
+			}
 			// one obligation per (field, function, read|write)
 			type k struct {
 				fn string
@@ -352,18 +393,37 @@ func checkC15(c *Ctx, r *Report) {
 					agg[kk] = append(agg[kk], fmt.Sprintf("%s at %s without %s (must-hold=%s)", a.what, c.InstrPos(a.in), guard, held))
 				}
 			}
+			// failing accesses are keyed by (field, mode, execution context), not by the function they
+			// happen to sit in: moving the same access into a helper is not a new finding, the same
+			// kind of access from another context (e.g. the request path instead of the janitor) is.
+			type fkey struct {
+				mode, ctx string
+			}
+			failAgg := map[fkey][]string{}
+			failPos := map[fkey]string{}
 			for kk, bad := range agg {
 				nGuarded++
 				mode := "reads"
 				if kk.w {
 					mode = "writes"
 				}
-				key := fmt.Sprintf("%s %s %s", kk.fn, mode, fk)
 				if len(bad) > 0 {
-					r.Fail("C15.R1", key, pos[kk], strings.Join(uniq(bad), "; "))
+					ctx := ctxOf[kk.fn]
+					if !guardExists {
+						ctx = "any: the type has no lock"
+					}
+					fk2 := fkey{mode, ctx}
+					failAgg[fk2] = append(failAgg[fk2], bad...)
+					if failPos[fk2] == "" || pos[kk] < failPos[fk2] {
+						failPos[fk2] = pos[kk]
+					}
 				} else {
-					r.Ok("C15.R1", key, pos[kk], fmt.Sprintf("%d access(es), %s in must-hold set on every call path", cnt[kk], guard))
+					r.Ok("C15.R1", fmt.Sprintf("%s %s %s", kk.fn, mode, fk), pos[kk], fmt.Sprintf("%d access(es), %s in must-hold set on every call path", cnt[kk], guard))
 				}
+			}
+			for fk2, bad := range failAgg {
+				key := fmt.Sprintf("%s: unguarded %s [%s]", fk, fk2.mode, fk2.ctx)
+				r.Fail("C15.R1", key, failPos[fk2], strings.Join(uniq(bad), "; "))
 			}
 		case strings.HasPrefix(rule, "writers:"):
 			allowed := strings.Split(strings.TrimPrefix(rule, "writers:"), ",")
